@@ -327,14 +327,48 @@ def rule_r3(chk, p, t):
                 if isinstance(it, ast.Name) and it.id == param:
                     elem.add(n.target.id)
 
-        def one_pos(e):
-            if isinstance(e, ast.Call) and call_name(e) == "radarObs2eciPosition" and len(e.args) == 1:
-                a = e.args[0]
-                if isinstance(a, ast.Name) and a.id in elem:
-                    return True
-                if isinstance(a, ast.Subscript) and isinstance(a.value, ast.Name) and a.value.id == param:
-                    return True
+        def over_param(it):
+            """an iterable of elements of the parameter: the parameter, a filtered generator / list over it, a local bound to one"""
+            while isinstance(it, ast.Call) and call_name(it) in ("list", "tuple", "iter", "reversed", "sorted", "filter") and it.args:
+                it = it.args[-1]
+            if isinstance(it, ast.Name):
+                return it.id == param or it.id in streams
+            if isinstance(it, (ast.GeneratorExp, ast.ListComp)) and len(it.generators) == 1 and isinstance(it.generators[0].target, ast.Name) and isinstance(it.elt, ast.Name) and it.elt.id == it.generators[0].target.id:
+                return over_param(it.generators[0].iter)
             return False
+
+        def elem_expr(a):
+            if isinstance(a, ast.Name) and a.id in elem:
+                return True
+            if isinstance(a, ast.Subscript) and isinstance(a.value, ast.Name) and (a.value.id == param or a.value.id in streams) and not isinstance(a.slice, ast.Slice):
+                return True
+            if isinstance(a, ast.Call) and call_name(a) == "next" and a.args and over_param(a.args[0]) and all(isinstance(d, ast.Constant) and d.value is None for d in a.args[1:]):
+                return True
+            return False
+
+        streams = set()
+        changed = True
+        while changed:
+            changed = False
+            for n in walk_no_nested(fn):
+                if isinstance(n, ast.Assign) and len(n.targets) == 1 and isinstance(n.targets[0], ast.Name):
+                    nm = n.targets[0].id
+                    if nm not in streams and not isinstance(n.value, ast.Name) and over_param(n.value):
+                        streams.add(nm)
+                        changed = True
+                    if nm not in elem and elem_expr(n.value):
+                        elem.add(nm)
+                        changed = True
+                elif isinstance(n, (ast.For, ast.comprehension)) and isinstance(n.target, ast.Name) and n.target.id not in elem and over_param(n.iter):
+                    elem.add(n.target.id)
+                    changed = True
+            for n in ast.walk(fn):
+                if isinstance(n, ast.comprehension) and isinstance(n.target, ast.Name) and n.target.id not in elem and over_param(n.iter):
+                    elem.add(n.target.id)
+                    changed = True
+
+        def one_pos(e):
+            return isinstance(e, ast.Call) and call_name(e) == "radarObs2eciPosition" and len(e.args) == 1 and elem_expr(e.args[0])
 
         assigns = {}
         for n in walk_no_nested(fn):
